@@ -434,10 +434,21 @@ class Interp:
             # stateless loop (its body only checks and raises): summarised exactly.  NoRaise(j) is the disjunction of
             # the path conditions under which the body completes normally on element j; the loop raises iff some
             # element raises, and falls through iff NoRaise holds for every element.
-            j0 = self.cx.fresh_int("lj")
-            normal = self.probe(st.body, frame, lambda it2, f2: it2.assign(st.target, seq.get(j0), f2))
+            # a loop over a concatenation is the sequence of the loops over its parts: summarise part by part (keeps the
+            # quantified facts free of if-then-else element terms)
+            parts = getattr(seq, "flat_parts", None) or getattr(seq, "concat_parts", None)
+            if parts:
+                parts = [p.seq(self.cx) if isinstance(p, V.SymSet) else p for p in parts]
+            else:
+                parts = [seq]
+            summaries = []
+            for part in parts:
+                j0 = self.cx.fresh_int("lj")
+                normal = self.probe(st.body, frame, lambda it2, f2, part=part, j0=j0: it2.assign(st.target, part.get(j0), f2))
+                summaries.append((part, j0, normal))
             k = self.cx.choose(2, f"loop{key[1]}")
             if k == 0:
+                j0 = self.cx.fresh_int("lj")
                 self.cx.assume(z3.And(0 <= j0, j0 < n))
                 self.assign(st.target, seq.get(j0), frame)
                 try:
@@ -445,10 +456,11 @@ class Interp:
                 except (_Break, _Continue):
                     pass
                 raise PathEnd()
-            if normal is not None:
-                jq = z3.Int("lj!q")
-                body = z3.substitute(normal, (j0, jq))
-                self.cx.assume(V.forall([jq], z3.Implies(z3.And(0 <= jq, jq < n), body)), tag="stateless-loop summary")
+            for part, j0, normal in summaries:
+                if normal is not None:
+                    jq = z3.Int("lj!q")
+                    body = z3.substitute(normal, (j0, jq))
+                    self.cx.assume(V.forall([jq], z3.Implies(z3.And(0 <= jq, jq < lift(part.length)), body)), tag="stateless-loop summary")
             return
         # -- invariant protocol
         for label, f in spec.inv(self.cx, frame, z3.IntVal(0)):
